@@ -726,6 +726,25 @@ def directed(tier):
         sb.op("csend 6 %s" % sb.blob(b"out"))
         return sb
 
+    def s_stalled():
+        """a client that stopped reading behind a full pipe: a large message is written in part, the
+        write times out -> that client is closed (classic body write, provide, fallback body write),
+        everybody else is served"""
+        sb = SB()
+        for i in range(5):
+            sb.op("raw %d" % i)
+        for i in (2, 3):
+            sb.op("send %d %s" % (i, sb.blob(setenc([ENC_EXT]))))
+        rr = __import__("random").Random(18)
+        big1, big2 = rr.randbytes(200000), rr.randbytes(150000)      # incompressible: the provide is large too
+        sb.op("stall 1"); sb.op("pub %s" % sb.blob(big1))
+        sb.op("stall 2"); sb.op("pub8 %s %s" % (sb.blob(big1), sb.blob(big2)))
+        sb.op("stall 0"); sb.op("pub8 %s %s" % (sb.blob(big2), sb.blob(big1)))
+        sb.op("pub %s" % sb.blob(b"the rest is fine"))
+        sb.op("send 3 %s" % sb.blob(cext(REQUEST | TEXT)))
+        return sb
+
+    out += [("stalled-client", s_stalled())]
     out += [("request-reply", s_request_reply([b"", b"x", b"hello", b"12345", b"123456", bytes(range(256)), rnd64k], 1)),
             ("request-reply-limits", s_request_reply([A(LIMIT - 2), A(LIMIT - 1), A(LIMIT)], 2)),
             ("broadcast-dead-client", s_broadcast_dead()), ("sender-vanishes", s_senddie()),
@@ -762,6 +781,7 @@ class Spec:
         self.view = {}
         self.open = set()          # ids whose connection is (still) expected open
         self.dying = set()         # peers that closed without the server having had a chance to notice
+        self.stalled = set()       # peers that stopped reading behind a tiny pipe (large writes fail half-way)
         self.nol1 = {}
         self.state = {}            # id -> (ext, usercap, maxunsol, dsz, dfnv) as last reported
         self.ccaps = {}            # client-library capability word as last reported
@@ -1030,6 +1050,12 @@ class Spec:
         if op == "viewonly":
             self.view[int(t[1])] = int(t[2])
             return None if not evs and not newly_closed else "viewonly had effects"
+        if op == "stall":
+            i = int(t[1])
+            if [e for e in plain] or newly_closed:
+                return "stalling the peer of %d had effects: %r %r" % (i, evs, newly_closed)
+            self.stalled.add(i)
+            return others_untouched(i)
         if op == "kill":
             i = int(t[1])
             if evs or newly_closed:
@@ -1208,6 +1234,21 @@ class Spec:
                 got_tx = tx.get("tx%d" % i, [])
                 got_c = [e for e in plain if e.startswith("ccb%d:" % i)]
                 dropped = ("cdrop%d" % i) in plain
+                if i in self.stalled:
+                    # the pipe takes a few KiB: a message of >= 64 KiB can only be written in part and
+                    # the write fails; the client must then be closed, not left with a truncated
+                    # message in its stream (what it received is not observed)
+                    if op == "pub":
+                        due = len(text)
+                    elif not ext:
+                        due = len(fb) if fb is not None else 0
+                    elif (ucap & PROVIDE) and len(text) <= maxu:
+                        due = len(zlib.compress(rec(text + b"\0")))
+                    else:
+                        due = 0
+                    if due >= 65536 and i not in closed:
+                        return "client %d cannot take the %d-byte message (stalled, pipe full) but is left open with a truncated message in its stream" % (i, due)
+                    continue
                 if k == "rawpre":
                     # still in the handshake: a ServerCutText would corrupt it; nothing may be sent,
                     # nothing cached, the connection stays as it is
@@ -1272,7 +1313,7 @@ class Spec:
                     if got_tx or got_c:
                         return "client %d got %r although its capabilities allow neither provide nor notify" % (i, got_tx or got_c)
             for i in newly_closed:
-                if self.kind[i] != "lib":
+                if self.kind[i] != "lib" and i not in self.stalled:
                     return "publish closed connection %d" % i
             if op == "pub8" and fb is None and any(self.kind[i] in ("raw", "lib") and i in prev_state and not prev_state[i][0] for i in prev_open):
                 self.null_with_classic = True
@@ -1458,7 +1499,7 @@ def run(ctx):
 PARTIAL = [
     "client_to_app_exact_partial / client_roundtrip_partial: 'every text of 0..1 MiB makes the extended round trip' is false of the code in two ways: the record limit counts the NUL (largest extended text 2^20-1 bytes; the classic message carries 2^20) and the compressed message is bounded by 1 MiB too (incompressible texts within a few hundred bytes of the limit). The exact set is the decidable predicate fitsServer/fitsClient; client_to_app_exact_iff / client_roundtrip_iff prove delivered-exactly <=> predicate, closed-without-callback otherwise. On LibVNCClient<->server links the window (1 MiB - 2 KiB, 1 MiB) is checked by the direct oracle only (real compressed sizes are zlib's)",
     "handshake states are not modelled beyond the flag `normal` (publish functions skip such clients; the handler model `feed` is for NORMAL connections only)",
-    "write failures are modelled for a peer that is gone (every write fails: field peerGone, ops kill/senddie); partial writes, allocation failures, compress()/inflateInit failures are not modelled (not reachable without fault injection)",
+    "write failures are modelled for a peer that is gone (every write fails: field peerGone, ops kill/senddie; op stall = a peer that stopped reading behind a tiny pipe, used only with large messages); arbitrary partial writes, allocation failures, compress()/inflateInit failures are not modelled (not reachable without fault injection)",
     "SetEncodings is modelled only in its effect on the clipboard state; other message types are outside the model ('unmodelled')",
     "segmentation: the model consumes the concatenated stream; independence from segmentation is exercised (interposed read(): every 1-cut split of a six-message stream on either library, random 1-3 cuts elsewhere, each cut followed by one EAGAIN) but is a property of rfbReadExact/ReadFromRFBServer, not proved here",
 ]
